@@ -79,6 +79,29 @@ Check C01_step_invariant : forall B T, c01_step B T = true ->
     diff_actions B T = Ok acts /\ apply_all B acts = Ok B' /\ baseline_ok B' = true
     /\ diff_actions B' T = Ok [] /\ diff_actions T B' = Ok [].
 
+(* second rung of the step theorem: surviving tables may also gain constraints and gain columns that
+   carry no inline declaration (nothing is dropped from them); c01_step is the special case *)
+Theorem C01_grow : forall B T, c01_grow B T = true -> closes_gap B T = true.
+Proof. exact C01HistP.C01_grow. Qed.
+Print Assumptions C01_grow.
+Check C01_grow : forall B T, c01_grow B T = true -> closes_gap B T = true.
+
+Theorem C01_grow_invariant : forall B T, c01_grow B T = true ->
+  exists acts B',
+    diff_actions B T = Ok acts /\ apply_all B acts = Ok B' /\ baseline_ok B' = true
+    /\ diff_actions B' T = Ok [] /\ diff_actions T B' = Ok [].
+Proof. exact c01_grow_sound. Qed.
+Print Assumptions C01_grow_invariant.
+Check C01_grow_invariant : forall B T, c01_grow B T = true ->
+  exists acts B',
+    diff_actions B T = Ok acts /\ apply_all B acts = Ok B' /\ baseline_ok B' = true
+    /\ diff_actions B' T = Ok [] /\ diff_actions T B' = Ok [].
+
+Theorem C01_step_is_grow : forall B T, c01_step B T = true -> c01_grow B T = true.
+Proof. exact c01_step_grow. Qed.
+Print Assumptions C01_step_is_grow.
+Check C01_step_is_grow : forall B T, c01_step B T = true -> c01_grow B T = true.
+
 (* reduction to single tables: the plan closes the gap on the whole schema as soon as, for every table
    name, the subsequence of the plan naming that table, run on that table alone, ends in a
    normalisation fix-point the planner cannot tell from the model's table (c01_local, decidable);
@@ -173,6 +196,35 @@ Check C01_histories_partial : forall H B T,
     plan_next T (H ++ [fill_plan p B])
       = Ok (mkPlan "" None None (next_version (H ++ [fill_plan p B])) []) /\
     Grown c01_step_models (H ++ [fill_plan p B]).
+
+(* the same along histories whose every step is a growing step *)
+Theorem C01_grow_history_baseline : forall H, Grown c01_grow_models H ->
+  exists B, replay H = Ok B /\ baseline_ok B = true.
+Proof. exact C01HistP.C01_grow_history_baseline. Qed.
+Print Assumptions C01_grow_history_baseline.
+Check C01_grow_history_baseline : forall H, Grown c01_grow_models H ->
+  exists B, replay H = Ok B /\ baseline_ok B = true.
+
+Theorem C01_grow_histories : forall H B T,
+  Grown c01_grow_models H -> replay H = Ok B -> c01_grow_models B T = true ->
+  exists p B',
+    plan_next T H = Ok p /\ closes_gap B T = true /\
+    replay (H ++ [fill_plan p B]) = Ok B' /\ baseline_ok B' = true /\
+    diff_actions B' T = Ok [] /\ diff_actions T B' = Ok [] /\
+    plan_next T (H ++ [fill_plan p B])
+      = Ok (mkPlan "" None None (next_version (H ++ [fill_plan p B])) []) /\
+    Grown c01_grow_models (H ++ [fill_plan p B]).
+Proof. exact C01HistP.C01_grow_histories. Qed.
+Print Assumptions C01_grow_histories.
+Check C01_grow_histories : forall H B T,
+  Grown c01_grow_models H -> replay H = Ok B -> c01_grow_models B T = true ->
+  exists p B',
+    plan_next T H = Ok p /\ closes_gap B T = true /\
+    replay (H ++ [fill_plan p B]) = Ok B' /\ baseline_ok B' = true /\
+    diff_actions B' T = Ok [] /\ diff_actions T B' = Ok [] /\
+    plan_next T (H ++ [fill_plan p B])
+      = Ok (mkPlan "" None None (next_version (H ++ [fill_plan p B])) []) /\
+    Grown c01_grow_models (H ++ [fill_plan p B]).
 
 (* ---------- why the hypotheses are there ---------- *)
 (* a loader-accepted table may list a column name twice; a grown baseline with such a table never
@@ -277,3 +329,18 @@ Example C01_local_d1 :
   | _, _ => False
   end.
 Proof. exact w_local_d1. Qed.
+
+(* a growing step outside c01_step (10 actions of 7 kinds, with a foreign key to a table created by the
+   same plan) *)
+Example C01_grow_nonvacuous :
+  c01_grow w_grow_B w_grow_T = true /\ c01_step w_grow_B w_grow_T = false /\
+  loader_accepts w_grow_T = true /\
+  diff_actions w_grow_B w_grow_T =
+    Ok [CreateTable "new" [pkcol "id"] []; DeleteTable "gone";
+        ModifyColumnType "t" "a" (TSimple Text) None; ModifyColumnNullable "t" "a" false None;
+        ModifyColumnDefault "t" "a" (Some "x");
+        AddColumn "t" (w_col "b" (TVarchar 8) true None (Some "new")) None;
+        AddColumn "t" (w_col "c" (TSimple Integer) true None None) None;
+        AddConstraint "t" (CUnique (Some "ua") ["a"; "b"]); AddConstraint "t" (CIndex None ["c"]);
+        AddConstraint "t" (CForeignKey None ["c"] "new" ["id"] None None)].
+Proof. exact w_grow_hyp. Qed.
